@@ -32,6 +32,10 @@ def dup_entries_equal_after_merge(sc, v):
                 kb = set(b.get('hashes', b.get('sums', {})))
                 if ka <= kb:
                     return True
+                if a['tag'] == 'MANIFEST':
+                    # every save refreshes all MANIFEST entries of a Manifest with one hash set, so two MANIFEST
+                    # entries for one file are equal from the first save (forced, or of a sub-directory) onwards
+                    return True
     return False
 
 
